@@ -14,7 +14,7 @@ def check(ctx, rep):
         "reached while the first CancelledError is being handled (an enclosing scheduler that is cancelled "
         "itself while it waits cancels its tasks again: three levels of nesting, cancellation that takes "
         "time); a third delivery meets the same code in the same state. R11.3 every .cancel() of the package "
-        "is part of cancel-all-then-await-unbounded (a task is never cancelled and then abandoned). R11.4 (= R07.1) wrapper typestate, cancellation path included. R11.5 (= R14.4) a cancelled activation is left by the CancelledError it received.")
+        "is part of cancel-all-then-await-unbounded (a task is never cancelled and then abandoned). R11.4 (= R07.1) wrapper typestate, cancellation path included. R11.5 (= R14.4) a cancelled activation is left by the CancelledError it received. R11.6 (= R13.9) a coroutine-based job awaits the shutdown coroutine it was given as it is, not in a task of its own (shielded or scheduled) that the cancellation at shutdown_timeout would not reach. R11.7 (= R13.12) on the late-handler path nothing can raise before the stragglers are cancelled and awaited: their tasks are not handed to code that reads a job back-pointer they do not have.")
     rep.declined = ["job code that swallows CancelledError (T9)"]
     rep.trusted = ["T1 asyncio.wait does not cancel its argument when cancelled", "T3", "T9"]
     runrules.exit_discipline(ctx, rep, "R11.1", "R11.1", "R11.1")
@@ -24,3 +24,5 @@ def check(ctx, rep):
     shutrules.single_cancel_model(ctx, rep, "R11.3")
     common.wrap_typestate(ctx, rep, "R11.4")
     shutrules.cancellation_propagates(ctx, rep, "R11.5")
+    shutrules.user_shutdown_unconditional(ctx, rep, "R11.6")
+    shutrules.handler_tasks_carry_no_job(ctx, rep, "R11.7")
